@@ -343,6 +343,8 @@ Record blocks : Prop := {
          dB (Chk (t_ibc tk && negb (is_fx tk)) :: mint A_IBC (ibc_of tk) x ++ send A_IBC a (ibc_of tk) x) (w 9 (t_id tk) * x);
   B_i2b : forall tk a x, fromcfg tk -> In a U -> dB (ibc_to_base tk a x) 0;
   B_b2i : forall tk a x, fromcfg tk -> In a U -> dB (base_to_ibc tk a x) 0;
+  B_isend : forall tk a x, fromcfg tk -> In a U -> dB (ibc_send tk a x) (- (w 9 (t_id tk) * x));
+  B_irecv : forall tk a x, fromcfg tk -> In a U -> dB (send A_ESC a (base_of tk) x) (w 9 (t_id tk) * x);
   G_dep : forall gh i c x,
     gd {| dept := set1 i (get1 i (dept gh) + x) (dept gh); exet := exet gh;
           depc := set2 (i, c) (get2 (i, c) (depc gh) + x) (depc gh); exec := exec gh |} = gd gh + w c i * x /\
@@ -609,20 +611,31 @@ Proof.
   destruct (G_dep HB (sg s) i c x) as [-> ->]. lia.
 Qed.
 
+(* value leaving through p and accounted as executed towards (chain c, token i) *)
+Lemma keeps_out p i c x : dB p (- (w c i * x)) -> keeps (doB p ;; exe_add i c x).
+Proof.
+  intros Hd s s' W H. minv. cbn [sr]. split; [|assumption].
+  pose proof (V_doB _ _ _ _ Hd R) as HV. unfold V in *. cbn [sb sr sg] in *.
+  destruct (G_exe HB (sg s) i c x) as [-> ->]. lia.
+Qed.
+
 Lemma keeps_send_to_fx tk c a x tg : fromcfg tk -> In a U -> keeps (send_to_fx tk c a x tg).
 Proof.
   intros Htk Ha s s' W H. unfold send_to_fx in H.
   apply bind_inv in H as [s1 [E1 H]]. apply doB_inv in E1 as [b1 [R1 ->]].
   apply bind_inv in H as [s2 [E2 H]]. unfold dep_add, updG in E2. injection E2 as <-. cbn [sb sr sg] in *.
   pose proof (keeps_dep_add (t_id tk) c x _ _ s b1 (B_b2base HB tk c a x Htk Ha) eq_refl W R1) as HV2.
-  destruct (tg =? 1).
+  destruct (tg =? 1); [|destruct (tg =? 2)].
+  3:{ injection H as <-. split; assumption. }
+  2:{ assert (Hk : keeps (doB (base_to_ibc tk a x) ;; doB (ibc_send tk a x) ;; exe_add (t_id tk) 9 x)).
+      { apply keeps_bind; [apply keeps_doB0, (B_b2i HB); assumption|]. apply keeps_out. apply (B_isend HB); assumption. }
+      pose proof (fun Wx => Hk _ s' Wx H) as K. cbn [sr] in K. destruct (K W) as [E1 W1]. split; [lia|assumption]. }
   - apply doB_inv in H as [b2 [R2 ->]]. cbn [sb sr sg] in *.
     unfold base_to_evm in R2.
     pose proof (V_doB _ _ {| sb := b1; sr := sr s; sg := {| dept := set1 (t_id tk) (get1 (t_id tk) (dept (sg s)) + x) (dept (sg s));
         exet := exet (sg s); depc := set2 (t_id tk, c) (get2 (t_id tk, c) (depc (sg s)) + x) (depc (sg s)); exec := exec (sg s) |} |}
         _ (B_cc HB tk a a x Htk Ha Ha) R2) as HV3.
     cbn [sb sr sg] in HV3. split; [lia|assumption].
-  - injection H as <-. split; assumption.
 Qed.
 
 Lemma keeps_bridge_call_in c a rf toks ok to : In a U -> In rf U -> (forall p, In p toks -> 0 <= snd p) ->
@@ -637,13 +650,15 @@ Proof.
   pose proof (V_doB _ _ _ _ Hd R1) as HV.
   assert (HV2 : V s2 = V s) by (unfold V in *; cbn [sb sr sg] in *; rewrite D1, D2, D3, D4; lia).
   assert (W2 : recs_wf (sr s2)) by (rewrite D2; assumption).
-  destruct (if ok then doB (each_tok g (fun tk x => base_to_evm tk a x) toks) s2 else None) as [s3|] eqn:E3.
+  assert (Hpos' : forall p, In p (pos_toks toks) -> 0 <= snd p).
+  { intros p Hp. apply Hpos. unfold pos_toks in Hp. apply filter_In in Hp. tauto. }
+  destruct (if ok then doB (each_tok g (fun tk x => base_to_evm tk a x) (pos_toks toks)) s2 else None) as [s3|] eqn:E3.
   - injection H as <-. destruct ok; [|discriminate]. apply doB_inv in E3 as [b3 [R3 ->]].
-    assert (Hd3 : dB (each_tok g (fun tk x => base_to_evm tk a x) toks) (0 * wamt c toks)).
+    assert (Hd3 : dB (each_tok g (fun tk x => base_to_evm tk a x) (pos_toks toks)) (0 * wamt c (pos_toks toks))).
     { apply dB_each. intros tk x Htk. unfold base_to_evm. eapply dB_eq; [apply (B_cc HB); assumption|lia]. }
     rewrite (V_doB _ _ _ _ Hd3 R3). cbn [sr]. split; [lia|assumption].
-  - assert (Hk : keeps ((if a =? rf then ret else doB (each_tok g (fun t x => send a rf (base_of t) x) toks)) ;;
-                        add_outgoing_bridge_call g c rf rf toks to)).
+  - assert (Hk : keeps ((if a =? rf then ret else doB (each_tok g (fun t x => send a rf (base_of t) x) (pos_toks toks))) ;;
+                        add_outgoing_bridge_call g c rf rf (pos_toks toks) to)).
     { apply keeps_bind; [|apply keeps_add_outgoing_bridge_call; assumption].
       destruct (a =? rf); [apply keeps_ret|]. apply keeps_doB0.
       eapply dB_eq; [apply (dB_each (fun t x => send a rf (base_of t) x) 0 c)|lia].
@@ -653,7 +668,7 @@ Qed.
 
 Lemma keeps_pre_cross_chain tk c a amt fee nat : fromcfg tk -> In a U -> keeps (pre_cross_chain tk c a amt fee nat).
 Proof.
-  intros Htk Ha. unfold pre_cross_chain. apply keeps_bind; [|apply keeps_bind].
+  intros Htk Ha. unfold pre_cross_chain. apply keeps_bind; [apply keeps_guard|]. apply keeps_bind; [|apply keeps_bind].
   - destruct nat; [apply keeps_bind; [apply keeps_guard|]|]; apply keeps_doB0.
     + apply (B_hot HB); assumption.
     + apply (B_het HB); assumption.
@@ -682,6 +697,21 @@ Proof.
   - apply keeps_doB0, (B_cdt HB); assumption.
   - apply keeps_guard.
   - apply keeps_add_bridge_fee; assumption.
+Qed.
+
+Lemma keeps_pre_cross_chain_ibc tk a amt nat : fromcfg tk -> In a U -> keeps (pre_cross_chain_ibc tk a amt nat).
+Proof.
+  intros Htk Ha. unfold pre_cross_chain_ibc. apply keeps_bind; [apply keeps_guard|]. apply keeps_bind.
+  - destruct nat; [apply keeps_bind; [apply keeps_guard|apply keeps_doB0, (B_hot HB); assumption]|].
+    apply keeps_bind; apply keeps_doB0; [apply (B_het HB)|apply (B_b2i HB)]; assumption.
+  - apply keeps_out, (B_isend HB); assumption.
+Qed.
+
+Lemma keeps_ibc_recv tk a x : fromcfg tk -> In a U -> keeps (ibc_recv tk a x).
+Proof.
+  intros Htk Ha. unfold ibc_recv. destruct (is_fx tk); [|apply keeps_fail].
+  intros s s' W H. minv. cbn [sr]. split; [|assumption].
+  exact (keeps_dep_add (t_id tk) 9 x _ _ s b (B_irecv HB tk a x Htk Ha) eq_refl W R).
 Qed.
 
 Lemma keeps_toggle i : keeps (toggle i).
@@ -718,25 +748,27 @@ Definition op_ok (o : op) : Prop :=
   | OBankSend a b _ _ | OErc20Transfer _ a b _ => In a U /\ In b U
   | OWfxDeposit a _ | OWfxWithdraw a _ => In a U
   | OIbcMint _ a _ | OIbcToBase _ a _ | OBaseToIbc _ a _ => In a U
+  | OPreCrossChainIbc _ a _ _ | OIbcRecv _ a _ => In a U
   end.
 
 Lemma run_keeps o : op_ok o -> keeps (run g o).
 Proof.
   intros Hok. destruct o; cbn [run op_ok] in *.
   - apply keeps_with_tok; intros tk Htk. apply keeps_send_to_fx; [eapply fromcfg_find; eassumption|assumption].
-  - apply keeps_with_tok; intros tk Htk. apply keeps_add_to_outgoing_pool; [eapply fromcfg_find; eassumption|assumption].
+  - apply keeps_bind; [apply keeps_guard|]. apply keeps_with_tok; intros tk Htk. apply keeps_add_to_outgoing_pool; [eapply fromcfg_find; eassumption|assumption].
   - apply keeps_cancel_send; assumption.
   - apply keeps_with_tok; intros tk Htk. apply keeps_add_bridge_fee; [eapply fromcfg_find; eassumption|assumption].
   - apply keeps_with_tok; intros. apply keeps_request_batch.
   - apply keeps_observe, keeps_ret.
   - apply keeps_with_tok; intros. apply keeps_observe, keeps_batch_executed.
-  - destruct Hok as [Ha [Hr Hp]]. apply keeps_bind; [apply keeps_add_outgoing_bridge_call; assumption|].
+  - destruct Hok as [Ha [Hr Hp]]. apply keeps_bind; [apply keeps_guard|].
+    apply keeps_bind; [apply keeps_add_outgoing_bridge_call; assumption|].
     apply keeps_updR_meta; intros; repeat split.
   - apply keeps_bridge_call_result.
   - destruct Hok as [Ha [Hr Hp]]. apply keeps_bridge_call_in; assumption.
   - destruct Hok. apply keeps_with_tok; intros tk Htk. apply keeps_doB0, (B_cc HB); [eapply fromcfg_find; eassumption|assumption..].
   - destruct Hok. apply keeps_with_tok; intros tk Htk. apply keeps_doB0, (B_ce HB); [eapply fromcfg_find; eassumption|assumption..].
-  - destruct Hok. apply keeps_with_tok; intros tk Htk. apply keeps_doB0, (B_cd HB); [eapply fromcfg_find; eassumption|assumption..].
+  - destruct Hok. apply keeps_bind; [apply keeps_guard|]. apply keeps_with_tok; intros tk Htk. apply keeps_doB0, (B_cd HB); [eapply fromcfg_find; eassumption|assumption..].
   - apply keeps_toggle.
   - apply keeps_with_tok; intros tk Htk. apply keeps_pre_cross_chain; [eapply fromcfg_find; eassumption|assumption].
   - destruct Hok as [Ha [Hr Hp]]. apply keeps_pre_bridge_call; assumption.
@@ -750,6 +782,8 @@ Proof.
     apply keeps_ibc_mint; [eapply fromcfg_find; eassumption|assumption].
   - apply keeps_with_tok; intros tk Htk. apply keeps_doB0, (B_i2b HB); [eapply fromcfg_find; eassumption|assumption].
   - apply keeps_with_tok; intros tk Htk. apply keeps_doB0, (B_b2i HB); [eapply fromcfg_find; eassumption|assumption].
+  - apply keeps_with_tok; intros tk Htk. apply keeps_pre_cross_chain_ibc; [eapply fromcfg_find; eassumption|assumption].
+  - apply keeps_with_tok; intros tk Htk. apply keeps_ibc_recv; [eapply fromcfg_find; eassumption|assumption].
 Qed.
 
 Lemma step_keeps s o : op_ok o -> recs_wf (sr s) -> V (fst (step g s o)) = V s /\ recs_wf (sr (fst (step g s o))).
@@ -792,7 +826,7 @@ End PD.
 Ltac blk_unfold :=
   unfold base_to_bridge_token, bridge_token_to_base, deposit_bridge_token, withdraw_bridge_token, conversion_coin,
          convert_coin, convert_erc20, msg_convert_denom, convert_denom_to_target, add_bridge_fee_prog, refund_mint, refund_unlock,
-         handler_origin_token, handler_erc20_token, ibc_to_base, base_to_ibc, origin_or_converted.
+         handler_origin_token, handler_erc20_token, ibc_to_base, base_to_ibc, ibc_send, origin_or_converted.
 Ltac pd_rw := repeat progress (rewrite ?pd_chk, ?pd_chke, ?pdelta_app, ?pd_send, ?pd_mint, ?pd_burn, ?pd_emint, ?pd_eburn, ?pd_etransfer, ?pd_nil).
 (* split the conditionals that select the program's shape *)
 Ltac split_prog :=
